@@ -180,10 +180,30 @@ Definition cls_shared_margs (t : tree) : bool :=
   | _ => false
   end.
 
+(* 10: create_requested_attribute_node infers a missing NameFormat only while it infers a missing name or friendly
+   name: an attribute given with name AND friendly_name but without name_format - although a loaded map knows the
+   name, so that the format could be inferred as documented - is written without the required NameFormat.  The class
+   is defined on the INPUT (the attributes in force of the call hold such an item) and on the output being exactly
+   what the model of the code computes for it. *)
+Definition EIDAS := "http://eidas.europa.eu/saml-extensions".
+
+Definition both_no_format (cs : list conv) (r : rattr) : bool :=
+  struthy (rq_name r) && struthy (rq_friendly r) && negb (match rq_format r with Some _ => true | None => false end)
+  && match rq_name r with Some n => match first_hit cv_fro (lower n) cs with Some _ => true | None => false end | None => false end.
+
+Definition cls_no_format (c : case) : bool :=
+  match c_b c, c_tree c with
+  | BAuthnRequest a, Some t =>
+      existsb (both_no_format (ar_convs a)) (match ar_reqattrs a with [] => ar_cfg_reqattrs a | l => l end)
+      && shape_agrees1 (model_tree (c_b c)) c
+      && any_node (fun n => is_tag EIDAS "RequestedAttribute" n && has_a "" "Name" n && negb (has_a "" "NameFormat" n)) t
+  | _, _ => false
+  end.
+
 Definition cls (c : case) : nat :=
   match c_tree c with
   | Some t => match cls_tree (c_vi c) t with
-              | 0 => if cls_misread c then 8 else if cls_shared_margs t then 9 else 0
+              | 0 => if cls_misread c then 8 else if cls_shared_margs t then 9 else if cls_no_format c then 10 else 0
               | k => k
               end
   | None => 0
